@@ -29,7 +29,6 @@ pub open spec fn sectors_wf(m: SMap) -> bool { forall|k: u64| m.dom().contains(k
     ensures
         r.is_ok() ==> (r->Ok_0.is_some() <==> self.amt.view().dom().contains(sector_number)),
         r.is_ok() && r->Ok_0.is_some() ==> secv(r->Ok_0->Some_0) == secv(self.amt.view()[sector_number]),
-        r.is_err() ==> r->Err_0.code == 20,
 //@ end
 //@ fn actors/miner/src/sectors.rs Sectors::must_get
     ensures
